@@ -315,8 +315,8 @@ theorem challenges_of_compressed (c : CommonData) (d : Digest) (pp : ProofWithPi
 
 /-- **(c), conditional.** For a proof `pp` accepted by the PLONK verifier, IF decompressing its
 compressed form (with the challenges of the transcript) returns `pp`'s proof — the conclusion of
-the round trip (a) — THEN `verify_compressed` accepts the compressed form. (The other direction is
-false in general: the compressed verifier does not validate shapes, F-C18-2.) -/
+the round trip (a) — THEN `verify_compressed` accepts the compressed form. (Since the repair of F-C16-1 the decompressed proof's shape is validated; the
+challenge derivation and decompression themselves still run on unvalidated data, F-C18-2.) -/
 theorem verifyCompressed_of_roundtrip (c : CommonData) (vd : VerifierOnly) (pp : ProofWithPis)
     (cpp : CompressedProofWithPis)
     (hacc : Plonk.verify c vd pp = .accept)
@@ -342,6 +342,8 @@ theorem verifyCompressed_of_roundtrip (c : CommonData) (vd : VerifierOnly) (pp :
     unfold verifyCompressed
     simp only []
     rw [hch, hpis, if_neg (by simp [hlen]), hround]
+    have hs' : Plonk.validateShape c ⟨pp.proof, pp.publicInputs⟩ = .accept := hs
+    simp only [hs']
     exact hacc
 
 end P2.Props.C16
